@@ -207,6 +207,11 @@ def AH.update (lt : Nat → Nat → Bool) (d : Nat) (hd0 : 0 < d) (s : AH) (key 
     else none
   | _ => s.push lt d key
 
+/-- `reserve(new_size)`: `if (handles_.size() < new_size) { handles_.resize(new_size, not_present());
+heap_.reserve(new_size); }` — the handle table only grows (capacity of `heap_` is not modelled) -/
+def AH.reserve (s : AH) (n : Nat) : AH :=
+  if s.handles.size < n then { s with handles := growH s.handles n } else s
+
 /-- `clear()` -/
 def AH.clear (s : AH) : AH := { heap := #[], handles := Array.replicate s.handles.size none }
 
